@@ -509,7 +509,7 @@ fn genesis_open_node() -> Node {
     let w = world_mel(NetID::Custom02, 1_000_000_000, 0);
     let sealed_dummy = w.genesis.clone().seal(None);
     let model = model_of(&sealed_dummy, &[CoinID::zero_zero()], &[], &[]);
-    Node { real: Real::Open(w.genesis.clone()), model: crate::refstf::RefState { height: 0, pools: Default::default(), ..model }, path: std::sync::Arc::new(vec!["unsealed-genesis(height 0)".into()]), trace: std::sync::Arc::new(vec![json!({"root": "unsealed genesis, height 0"})]), lineage: std::sync::Arc::new(vec![]), salt: 0 }
+    Node::new_root(Real::Open(w.genesis.clone()), crate::refstf::RefState { height: 0, pools: Default::default(), ..model }, "unsealed-genesis(height 0)".to_string(), json!({"root": "unsealed genesis, height 0"}), vec![])
 }
 
 // ---------------------------------------------------------------------------------------------
